@@ -177,6 +177,15 @@ CATALOGUE = [
             for accessor_name, synt_id in self._LOCAL_SYNTAX.items():
                 setattr(self, accessor_name, colors_conf.get_color(synt_id))
 """, note="a synced palette is refreshed only the first time it meets a configuration"),
+    dict(id="m14_synced_report_stale", prop="C14", file="ak/color.py",
+         old="""            color_fmt = colors_conf.get_color(synt_id)
+            self._local_colors[accessor_name] = (synt_id, color_fmt)
+            setattr(self, accessor_name, color_fmt)
+""",
+         new="""            color_fmt = colors_conf.get_color(synt_id)
+            setattr(self, accessor_name, color_fmt)
+""", note="the original defect (fixed in /repo): a synced palette refreshes its accessors only; make_report() "
+          "and Palette.get_color() keep the formatters of the previous global configuration"),
     # ------------------------------------------------------------------ C08
     dict(id="m08_subclass_operand", prop="C08", file="ak/color.py",
          old="        elif isinstance(other, CHText):\n            # (any CHText: an object of a derived class",
